@@ -18,6 +18,7 @@ See kani/README.md for the file formats.
 """
 import concurrent.futures as cf
 import fcntl
+import glob
 import hashlib
 import json
 import os
@@ -335,15 +336,26 @@ def _run(cmd, cwd, timeout, target_dir):
 
 
 FAIL = ("FAILURE", "FAILED")  # Kani 0.68 prints FAILURE; older/other formats FAILED
-_CHECK = re.compile(r"^Check (\d+): (\S+)\s*\n\s*- Status: (\w+)\s*\n\s*- Description: \"(.*)\"\s*\n(?:\s*- Location: (.*)\n)?", re.M)
+_CHECK_HEAD = re.compile(r"^Check (\d+): (.+?)[ \t]*$", re.M)
 
 
 def parse_output(text):
-    """per-check results of `--output-format=regular`"""
+    """per-check results of `--output-format=regular` (check ids may contain spaces, descriptions may span lines)"""
     checks = []
-    for m in _CHECK.finditer(text):
+    heads = list(_CHECK_HEAD.finditer(text))
+    for k, m in enumerate(heads):
+        end = heads[k + 1].start() if k + 1 < len(heads) else len(text)
+        blk = text[m.end():end]
+        stop = blk.find("\n\n")
+        if stop >= 0:
+            blk = blk[:stop + 1]
+        sm = re.search(r"^\s*- Status: (\w+)", blk, re.M)
+        if not sm:
+            continue
+        dm = re.search(r"^\s*- Description: \"(.*?)\"[ \t]*(?:\n\s*- Location:|\n?\Z)", blk, re.M | re.S)
+        lm0 = re.search(r"^\s*- Location: (.*)$", blk, re.M)
         cid = m.group(2)
-        loc = (m.group(5) or "").strip()
+        loc = (lm0.group(1) if lm0 else "").strip()
         fn = None
         file_line = None
         lm = re.match(r"(\S+?):(\d+):(\d+)(?: in function (.+))?$", loc)
@@ -356,10 +368,10 @@ def parse_output(text):
                 fn = lm.group(1)
         parts = cid.split(".")
         kind = parts[-2] if len(parts) >= 2 else cid
-        desc = m.group(4)
+        desc = re.sub(r"\s+", " ", dm.group(1)) if dm else ""
         if len(desc) >= 2 and desc[0] == '"' and desc[-1] == '"':
             desc = desc[1:-1]  # assert!(c, "msg") is printed with its own quotes
-        checks.append({"n": int(m.group(1)), "id": cid, "status": m.group(3), "description": desc, "location": loc, "function": fn,
+        checks.append({"n": int(m.group(1)), "id": cid, "status": sm.group(1), "description": desc, "location": loc, "function": fn,
                        "file_line": file_line, "class": kind})
     res = {"checks": checks}
     m = re.search(r"VERIFICATION:- (\w+)", text)
@@ -480,8 +492,13 @@ def _run_kani_unit(here, repo, name, tier):
     lib_lines = meta["lib"].split("\n")
 
     hs = []
+    r["tier"] = tier
+    r["skipped_in_quick"] = []
     for h in cfg.get("harnesses", []):
         if h.get("tier", "quick") == "thorough" and tier != "thorough":
+            # not run, not counted: obligations/discharged/bounded only ever describe harnesses that were executed in this run
+            r["skipped_in_quick"].append({"harness": "%s/%s" % (name, h["name"]), "complete": bool(h.get("complete")), "props": h.get("props") or cfg.get("props"),
+                                          "claim": h.get("claim"), "bound": h.get("bound")})
             continue
         hs.append(h)
     declared = set(h["name"] for h in cfg.get("harnesses", []))
@@ -501,6 +518,13 @@ def _run_kani_unit(here, repo, name, tier):
         r["undecided_reason"] = "; ".join(reasons)
         return r
 
+    # cargo decides freshness of a path dependency by file mtimes; a scratch tree restored with `rsync -a` / `cp -p` can carry an
+    # OLDER mtime than the previous build and would be taken as fresh.  Drop the fingerprints of the path dependencies (and of the
+    # generated crate) so that they are rebuilt from the current text on every run; registry dependencies stay cached.
+    for dn in list(cfg.get("path_deps", {})) + [meta["crate"]]:
+        for fp in glob.glob(os.path.join(meta["dir"], "target", "**", ".fingerprint", dn.replace("-", "_") + "-*"), recursive=True) + \
+                glob.glob(os.path.join(meta["dir"], "target", "**", ".fingerprint", dn + "-*"), recursive=True):
+            shutil.rmtree(fp, ignore_errors=True)
     # step 0: compile once (crate + path dependencies); a compile error is a tool limit, never an alarm
     cc = ["cargo", "kani", "--only-codegen"] + _z_flags(cfg.get("kani_flags", []))
     c0 = _run(cc, meta["dir"], cfg.get("compile_timeout", 900), None)
@@ -539,6 +563,10 @@ def _run_kani_unit(here, repo, name, tier):
             hstat, why = "undecided", "out of memory"
         elif not res["checks"] or res["verdict"] is None:
             hstat, why = "undecided", "cargo kani produced no verification result (compile error or tool failure, rc=%s): %s" % (res["rc"], _errors_of(res["raw_tail"]))
+        elif res["summary_failed"] and (res["summary_failed"][1] != len(checks) or res["summary_failed"][0] != len(failed)):
+            # the parser and Kani's own summary line disagree: never guess
+            hstat, why = "undecided", "output parse mismatch: parsed %d checks / %d failed, Kani reports %d / %d" % (
+                len(checks), len(failed), res["summary_failed"][1], res["summary_failed"][0])
         elif real_failed:
             hstat = "violation"
         elif unwind_failed:
